@@ -138,11 +138,11 @@ package protocol
 //@ func receive
 //@   requires[C10] out != nil
 //@   requires[C01] relay: out == #backend ==> #ccOK && !#errSent && !#closeOK
-//@   assigns #relayed, #connWrite, #connWriteTo
-//@   ensures[C06] once: #connWriteTo == out && (out == #backend ==> #relayed == old(#relayed) + 1)
-//@   ensures[C06] exact: len(data) >= 2 + int(le16(data, 0)) ==> len(#connWrite) == int(le16(data, 0)) && (forall i :: 0 <= i && i < len(#connWrite) ==> #connWrite[i] == data[i+2])
-//@   ensures[C06] short: len(data) >= 2 && len(data) < 2 + int(le16(data, 0)) ==> len(#connWrite) <= len(data) - 2 && (forall i :: 0 <= i && i < len(#connWrite) ==> #connWrite[i] == data[i+2])
-//@   ensures[C06] empty: len(data) < 2 ==> len(#connWrite) == 0
+//@   assigns #relayed, #connWrite, #connWriteTo, #connWrites
+//@   ensures[C06] atMostOnce: #connWrites == old(#connWrites) || (#connWrites == old(#connWrites) + 1 && #connWriteTo == out)
+//@   ensures[C06] exact: len(data) >= 2 + int(le16(data, 0)) ==> #connWrites == old(#connWrites) + 1 && len(#connWrite) == int(le16(data, 0)) && (forall i :: 0 <= i && i < len(#connWrite) ==> #connWrite[i] == data[i+2])
+//@   ensures[C06] short: len(data) >= 2 && len(data) < 2 + int(le16(data, 0)) ==> #connWrites == old(#connWrites) || (len(#connWrite) <= len(data) - 2 && (forall i :: 0 <= i && i < len(#connWrite) ==> #connWrite[i] == data[i+2]))
+//@   ensures[C06] empty: len(data) < 2 ==> #connWrites == old(#connWrites) || len(#connWrite) == 0
 //@   nopanic[C10]
 
 //@ func forward
